@@ -72,12 +72,24 @@ def _helper_calls(repo, res, fn, cfg):
             kind = HELPERS[t.qual]
             args = list(t.prefix) + list(c.args)
             if len(args) < 2:
-                raise AnalysisError(f"{getattr(fn, '_qual', fn.name)}: helper call with keyword arguments (unrecognised idiom)")
+                # keyword call: bind through the helper's signature (net, target_net[, tau])
+                kw = {k.arg: k.value for k in c.keywords if k.arg}
+                for pn in positional_params(repo.func(t.qual))[len(args):]:
+                    if pn in kw:
+                        args.append(kw[pn])
+                    else:
+                        break
+            if len(args) < 2:
+                raise AnalysisError(f"{getattr(fn, '_qual', fn.name)}: helper call `{short(c, 60)}` cannot be bound to (net, target_net) (unrecognised idiom)")
             unrolled = None
             if isinstance(args[0], ast.Name) and isinstance(args[1], ast.Name):
                 d0, d1 = cfg.defs_of(n.id, args[0].id), cfg.defs_of(n.id, args[1].id)
                 if len(d0) == 1 and len(d1) == 1 and d0[0].kind == "for" and d1[0].kind == "for" and d0[0].node == d1[0].node:
                     it = d0[0].value
+                    if isinstance(it, ast.Name):
+                        dit = cfg.defs_of(d0[0].node, it.id)
+                        if len(dit) == 1 and dit[0].kind == "assign" and isinstance(dit[0].value, (ast.Tuple, ast.List)):
+                            it = dit[0].value
                     if isinstance(it, (ast.Tuple, ast.List)) and all(isinstance(x, (ast.Tuple, ast.List)) for x in it.elts) and d0[0].path and d1[0].path:
                         unrolled = []
                         for i, x in enumerate(it.elts):
@@ -129,6 +141,24 @@ def _guards(nf, fn, cfg, nid, qual):
                 if txt.isidentifier() and cfg._expand_name(ast.Name(id=txt, ctx=ast.Load()), b) is not None:
                     continue
                 out.append(_lit_canon(nf, sc, cfg, txt, truth, b))
+    # flow-based supplement: `if <not due>: return ...` before the update - a dominating branch from only one arm of which the
+    # update is reachable contributes its condition just like an enclosing `if`
+    syntactic = {b for b, _ in cfg.control_deps(nid)}
+    rd = cfg.reaching()
+    for bn in cfg.nodes:
+        if bn.kind != "test" or not isinstance(bn.ast, ast.If) or bn.id in syntactic or bn.id == nid or not cfg.dominates(bn.id, nid):
+            continue
+        reach = {lab: cfg.paths_avoiding(bn.id, nid, set(), feasible=False, first_label=lab) is not None for lab in (True, False)}
+        if reach[True] == reach[False]:
+            continue
+        lab = True if reach[True] else False
+        names = {x.id for x in ast.walk(bn.ast.test) if isinstance(x, ast.Name)}
+        if not all(rd[nid].get(nm) == rd[bn.id].get(nm) for nm in names):
+            continue
+        for txt, truth in cfg._lits(bn.ast.test, lab, bn.id):
+            if txt.isidentifier() and cfg._expand_name(ast.Name(id=txt, ctx=ast.Load()), bn.id) is not None:
+                continue
+            out.append(_lit_canon(nf, sc, cfg, txt, truth, bn.id))
     # de-duplicate, drop logger / None tests
     res = []
     for g in out:
@@ -276,8 +306,9 @@ def run(ck, repo: Repo, tier: str):
     ck.floor("helper-call-sites", n_calls, 10)
     # every helper call site in the package is covered by the table
     covered = set(CADENCE)
+    transparent = repo.transparent_helpers()
     for qual, f2, mi2 in repo.all_functions():
-        if qual in covered or qual in HELPERS or "<locals>" in qual:
+        if qual in covered or qual in HELPERS or "<locals>" in qual or qual in transparent:
             continue
         c2 = None
         for n in ast.walk(f2):
@@ -297,6 +328,8 @@ def _is_fresh(t):
         return True
     if k == "attr":
         return _is_fresh(t[1])
+    if k == "alt":
+        return all(_is_fresh(x) for x in t[1])
     return False
 
 
@@ -406,6 +439,7 @@ MUTANTS = [
     {"id": "c06-ddqn-extra-helper", "file": _A + "ddqn.py", "rule": "R4", "find": "            if step % target_update_frequency == 0:\n                hard_target_net_update(q_net, q_target_net)", "replace": "            if step % target_update_frequency == 0:\n                hard_target_net_update(q_net, q_target_net)\n        if terminated:\n            hard_target_net_update(q_net, q_target_net)"},
 ]
 BENIGN = [
+    {"id": "c06-b-td7-early-return", "file": _A + "td7.py", "edits": [("    if epoch % target_delay == 0:\n        hard_target_net_update(policy.actor, policy_target.actor)", "    if epoch % target_delay != 0:\n        return metrics, epochs\n    if True:\n        hard_target_net_update(policy.actor, policy_target.actor)")]},
     {"id": "c06-b-td7-done-alias", "file": _A + "td7.py", "edits": [("        next_obs, reward, termination, truncated, info = env.step(action)\n", "        next_obs, reward, termination, truncated, info = env.step(action)\n        done = termination or truncated\n"), ("            if (termination or truncated) and use_checkpoints:", "            if done and use_checkpoints:")]},
     {"id": "c06-b-td3-not-mod", "file": _A + "td3.py", "find": "                if step % policy_delay == 0:", "replace": "                if not step % policy_delay:"},
     {"id": "c06-b-td3-flipped-eq", "file": _A + "td3.py", "find": "                if step % policy_delay == 0:", "replace": "                if 0 == step % policy_delay:"},
